@@ -58,10 +58,11 @@ func maxInt(a, b int) int {
 func c03configs(thorough bool) []map[string]int {
 	tiny := map[string]int{"window": 3, "writeq": 16, "rbuf": 16, "wbuf": 16, "compress": 0}
 	def := map[string]int{"window": 16 << 20, "writeq": 16 << 20, "rbuf": 32 << 10, "wbuf": 32 << 10, "compress": 0}
+	short := map[string]int{"window": 8, "writeq": 16 << 20, "rbuf": 16, "wbuf": 32 << 10, "compress": 0, "maxread": 3}
 	if !thorough {
-		return []map[string]int{tiny, def}
+		return []map[string]int{tiny, def, short}
 	}
-	out := []map[string]int{tiny, def}
+	out := []map[string]int{tiny, def, short}
 	for _, w := range []int{1, 8} {
 		for _, q := range []int{16, 16 << 20} {
 			for _, c := range []int{0, 1} {
